@@ -85,8 +85,34 @@ def user_hook(i):
                 return None                      # a hook that returns None: None is what gets stored
             return f"h{_i}.{tag}({canon(value)})"
         hook.__name__ = f"hook{i}"
+        if 700 <= i < 900:
+            # a hook OBJECT that is callable but falsy (700..799: __bool__ is False, 800..899: __len__ is 0):
+            # a hook is whatever callable was given, its truthiness is not part of the contract
+            hook = (_FalsyByBool if i < 800 else _FalsyByLen)(hook, i)
         h = _HOOKS[i] = hook
     return h
+
+
+class _FalsyByBool:
+    def __init__(self, fn, i):
+        self._fn, self.__name__ = fn, f"falsy_hook{i}"
+
+    def __call__(self, inst, a, value):
+        return self._fn(inst, a, value)
+
+    def __bool__(self):
+        return False
+
+
+class _FalsyByLen:
+    def __init__(self, fn, i):
+        self._fn, self.__name__ = fn, f"empty_hook{i}"
+
+    def __call__(self, inst, a, value):
+        return self._fn(inst, a, value)
+
+    def __len__(self):
+        return 0
 
 
 def mk_converter(tag, kind):
